@@ -48,6 +48,45 @@ def any_perms(r):
     return ",".join(out or ["ev"])
 
 
+# the kind of container the caller hands to get_/put_characteristics (the APIs are annotated Iterable)
+CONTAINERS = ["list", "tuple", "gen", "iter", "map", "view", "set"]
+ONE_SHOT = ("gen", "iter", "map")
+
+
+# CoAP writes: on the current tree only list / tuple reach the judged path (see container_calls_not_judged), so they dominate
+COAP_PUT_CONTAINERS = ["list", "tuple", "gen", "list", "tuple", "iter", "list", "view", "tuple", "map", "list", "tuple"]
+
+
+def pick_container(idx, items, ordered, kinds=None):
+    """deterministic rotation; dict views / sets only when they keep every item (no repeats), sets only when order is irrelevant"""
+    kinds = kinds or CONTAINERS
+    kind = kinds[idx % len(kinds)]
+    distinct = len({tuple(x) for x in items}) == len(items)
+    if kind == "view" and not distinct:
+        kind = "tuple"
+    if kind == "set" and (ordered or not distinct):
+        kind = "gen"
+    return kind
+
+
+def wrap(items, case):
+    kind = case.get("container", "list")
+    items = [tuple(x) for x in items]
+    if kind == "tuple":
+        return tuple(items)
+    if kind == "gen":
+        return (x for x in items)
+    if kind == "iter":
+        return iter(items)
+    if kind == "map":
+        return map(tuple, items)
+    if kind == "view":
+        return dict.fromkeys(items).keys()
+    if kind == "set":
+        return set(items)
+    return items
+
+
 def perm_class(p):
     pl = p.split(",")
     return "+".join(x for x in ("pr", "pw", "tw") if x in pl) or "none"
@@ -333,7 +372,7 @@ class IpRig(Rig):
         self.table = {tuple(map(int, k.split("."))): tuple(v) for k, v in case["table"].items()}
         self.sent, self.replied = [], []
         try:
-            res = await self.pairing.get_characteristics([tuple(k) for k in case["req"]])
+            res = await self.pairing.get_characteristics(wrap(case["req"], case))
             res = canon_read_result(res)
         except Exception as e:  # noqa
             res = exc_class(e)
@@ -347,7 +386,7 @@ class IpRig(Rig):
         self.sent, self.replied = [], []
         self.log.clear()
         try:
-            res = await self.pairing.put_characteristics([tuple(q) for q in case["reqs"]])
+            res = await self.pairing.put_characteristics(wrap(case["reqs"], case))
             res = (canon_write_result(res), merge_log(self.log))
         except Exception as e:  # noqa
             res = exc_class(e)
@@ -359,7 +398,7 @@ class IpRig(Rig):
         self.set_perms({})
         self.reply = Resp(207 if case["entries"] else 200, json.dumps(read_data(case)).encode())
         try:
-            res = await self.pairing.get_characteristics([tuple(k) for k in case["req"]])
+            res = await self.pairing.get_characteristics(wrap(case["req"], case))
         except Exception as e:  # noqa
             return exc_class(e)
         return canon_read_result(res)
@@ -381,7 +420,7 @@ class IpRig(Rig):
             self.reply = Resp(207, json.dumps(body).encode())
         self.log.clear()
         try:
-            res = await self.pairing.put_characteristics([tuple(q) for q in case["reqs"]])
+            res = await self.pairing.put_characteristics(wrap(case["reqs"], case))
         except Exception as e:  # noqa
             return exc_class(e)
         return canon_write_result(res), merge_log(self.log)
@@ -459,9 +498,9 @@ class CoapRig(Rig):
         self.pairing.connection.enc_ctx = self.reactive_enc
         try:
             if write:
-                res = await self.pairing.put_characteristics([tuple(q) for q in case["reqs"]])
+                res = await self.pairing.put_characteristics(wrap(case["reqs"], case))
                 return canon_write_result(res, "pdu"), merge_log(self.log)
-            res = await self.pairing.get_characteristics([tuple(k) for k in case["ids"]])
+            res = await self.pairing.get_characteristics(wrap(case["ids"], case))
             return canon_read_result(res, "pdu")
         except Exception as e:  # noqa
             return exc_class(e)
@@ -473,7 +512,7 @@ class CoapRig(Rig):
         # a CHAR_READ body is a TLV with the value under kTLVHAPParamValue (1)
         self.script = self._script(case["results"], lambda v: bytes([1, 1, v & 0xFF]))
         try:
-            res = await self.pairing.get_characteristics([tuple(k) for k in case["ids"]])
+            res = await self.pairing.get_characteristics(wrap(case["ids"], case))
         except Exception as e:  # noqa
             return exc_class(e)
         return canon_read_result(res, "pdu")
@@ -483,7 +522,7 @@ class CoapRig(Rig):
         self.script = self._script(case["results"], lambda v: b"")
         self.log.clear()
         try:
-            res = await self.pairing.put_characteristics([tuple(q) for q in case["reqs"]])
+            res = await self.pairing.put_characteristics(wrap(case["reqs"], case))
         except Exception as e:  # noqa
             return exc_class(e)
         return canon_write_result(res, "pdu"), merge_log(self.log)
@@ -533,7 +572,7 @@ class BleRig(Rig):
         notes = []
         with mock.patch.object(self.bp, "ble_request", fake_ble_request):
             try:
-                res = await self.pairing.put_characteristics([(a, i, v) for (a, i, v, _, _) in case["items"]])
+                res = await self.pairing.put_characteristics(wrap([(a, i, v) for (a, i, v, _, _) in case["items"]], case))
                 out = fmt_read_ble(canon_write_result(res))
             except self.bp.PDUStatusError as e:
                 out = f"err {status_val(e.status)}"
@@ -1450,6 +1489,10 @@ def run(ctx):
     rcases = gen_read(tier, rng(seed, "c13read"))
     if replay:
         rcases = [replay["case"]] if replay.get("stream") in ("fcl", "ipget") else []
+    else:
+        for idx, c in enumerate(rcases):
+            if c["req"] is not None:
+                c["container"] = pick_container(idx + 6, c["req"], ordered=False)
     m_fcl = [canon_model_read(a) for a in drv.batch([line_read("fcl", c) for c in rcases])]
     m_get = [canon_model_read(a) for a in drv.batch([line_read("ipget", c) if c["req"] is not None else "tsc 0" for c in rcases])]
     for idx, (c, mf, mg) in enumerate(zip(rcases, m_fcl, m_get)):
@@ -1474,6 +1517,9 @@ def run(ctx):
     wcases = gen_ipput(tier, rng(seed, "c13put"))
     if replay:
         wcases = [replay["case"]] if replay.get("stream") == "ipput" else []
+    else:
+        for idx, c in enumerate(wcases):
+            c["container"] = pick_container(idx + 5, c["reqs"], ordered=True)
     m_put = [canon_model_write(a) for a in drv.batch([line_ipput(c) for c in wcases])]
     first_drop = None
     for idx, (c, m) in enumerate(zip(wcases, m_put)):
@@ -1511,6 +1557,18 @@ def run(ctx):
         rgets = [replay["case"]] if st == "ipget-reactive" else []
         rcputs = [replay["case"]] if st == "coapput-reactive" else []
         rcreads = [replay["case"]] if st == "coapread-reactive" else []
+    for idx, c in enumerate(rputs):
+        c["container"] = pick_container(idx, c["reqs"], ordered=True)
+    for idx, c in enumerate(rgets):
+        c["container"] = pick_container(idx + 1, c["req"], ordered=False)
+    for idx, c in enumerate(rcputs):
+        c["container"] = pick_container(idx + 2, c["reqs"], ordered=True, kinds=COAP_PUT_CONTAINERS)
+    for idx, c in enumerate(rcreads):
+        c["container"] = pick_container(idx + 3, c["ids"], ordered=False)
+    if replay:
+        for c in rputs + rgets + rcputs + rcreads:
+            c["container"] = replay["case"].get("container", "list")
+    failed_unsent = collections.Counter()
     pend = []
     for c in rputs:
         res = loop.run_until_complete(ip.put_reactive(c))
@@ -1523,6 +1581,7 @@ def run(ctx):
         cov.case("rw" + json.dumps(c, sort_keys=True), bool(c["reqs"]),
                  sample=dict(stream="ipput-reactive", case=c, requests_sent=sent, impl=fmt_write(res)) if idx % 2503 == 5 else None,
                  rput_src=c["src"], rput_requests=len(sent), rput_aids=len({a for a, _, _ in c["reqs"]}),
+                 rput_container=c.get("container", "list"),
                  rput_listener_calls=res[1].calls if not isinstance(res, str) else "-",
                  rput_mix="all-accepted" if all(v == 0 for v in vals) else ("all-rejected" if all(v != 0 for v in vals) else "mixed"),
                  rput_rejecting_aids=len({int(k.split(".")[0]) for k, v in c["table"].items() if v != 0}))
@@ -1535,7 +1594,7 @@ def run(ctx):
         judge("ipget-reactive", dict(c, requests_sent=[[list(k) for k in q] for q in sent]), fmt_read(res), canon_model_read(m), orc)
         cov.case("rg" + json.dumps(c, sort_keys=True), bool(c["req"]),
                  sample=dict(stream="ipget-reactive", case=c, requests_sent=sent, impl=fmt_read(res)) if idx % 2503 == 9 else None,
-                 rget_requests=len(sent), rget_aids=len({k[0] for k in c["req"]}))
+                 rget_requests=len(sent), rget_aids=len({k[0] for k in c["req"]}), rget_container=c.get("container", "list"))
     for cases, write, name, oracle, line, canon, fmt in (
             (rcputs, True, "coapput-reactive", oracle_coapput, line_coapput, canon_model_write, fmt_write),
             (rcreads, False, "coapread-reactive", oracle_coapread, line_coapread, canon_model_read, fmt_read)):
@@ -1543,6 +1602,24 @@ def run(ctx):
         for idx, (c, m) in enumerate(zip(cases, models)):
             res = loop.run_until_complete(coap.reactive(c, write))
             sent = [list(x) for x in coap.sent]
+            if isinstance(res, str) and c.get("container") in ONE_SHOT and not any(sent):
+                # the call failed before a single PDU reached the accessory (a one-shot iterable walked twice):
+                # nothing was asked of the accessory, so the property has nothing to say; counted, not judged
+                failed_unsent[f"{name}:{c['container']}:{res}"] += 1
+                cov.case(name + json.dumps(c, sort_keys=True), False, **{name.replace("-", "_") + "_container": c["container"] + ":failed-unsent"})
+                continue
+            if isinstance(res, str) and write and c.get("container") in ("view", "set") and any(sent):
+                # a re-iterable but not subscriptable container: the PDUs went out, then the result mapping raised
+                if any(c["table"][str(i)][0] == "S" for _, i, _ in c["reqs"]):
+                    failed_unsent[f"{name}:{c['container']}:raised-after-a-rejection"] += 1     # "(or the call fails)"
+                    cov.case(name + json.dumps(c, sort_keys=True), True, **{name.replace("-", "_") + "_container": c["container"] + ":raised"})
+                    continue
+                judge(name, dict(c, pdus_sent=sent), res, canon(m),
+                      ("written-then-raised-unsubscriptable-container",
+                       f"{name}: put_characteristics({c['container']} of {c['reqs']}) sent the writes {sent}, the accessory accepted every "
+                       f"one, then the call raised ({res}) and listeners were never told the new values"))
+                cov.case(name + json.dumps(c, sort_keys=True), True, **{name.replace("-", "_") + "_container": c["container"] + ":raised"})
+                continue
             orc = oracle(coap_positional(c), res)
             if orc is None:
                 want = [i for _, i, _ in c["reqs"]] if write else [k[1] for k in c["ids"]]
@@ -1551,7 +1628,9 @@ def run(ctx):
             judge(name, dict(c, pdus_sent=sent), fmt(res), canon(m), orc)
             cov.case(name + json.dumps(c, sort_keys=True), True,
                      sample=dict(stream=name, case=c, pdus_sent=sent, impl=fmt(res)) if idx % 1201 == 13 else None,
-                     **{name.replace("-", "_") + "_requests": len(sent)})
+                     **{name.replace("-", "_") + "_requests": len(sent),
+                        name.replace("-", "_") + "_container": c.get("container", "list")})
+    cov.extra["container_calls_not_judged"] = dict(failed_unsent)
 
     # ---- CoAP
     creads, cputs = gen_coap(tier, rng(seed, "c13coap"))
@@ -1577,6 +1656,9 @@ def run(ctx):
     bcases = gen_ble(tier, rng(seed, "c13ble"))
     if replay:
         bcases = [replay["case"]] if replay.get("stream") == "bleput" else []
+    else:
+        for idx, c in enumerate(bcases):
+            c["container"] = pick_container(idx + 4, [(a, i, v) for (a, i, v, _, _) in c["items"]], ordered=True)
     for idx, (c, m) in enumerate(zip(bcases, [canon_model_ble(a) for a in drv.batch([line_bleput(x) for x in bcases])])):
         res = loop.run_until_complete(ble.put(c))
         orc = oracle_bleput(c, res)
@@ -1597,7 +1679,7 @@ def run(ctx):
         judge("bleput", dict(c, requests_sent=[list(x) for x in ble.calls]), res, m, orc)
         cov.case("b" + json.dumps(c, sort_keys=True), bool(c["items"]),
                  sample=dict(stream="bleput", case=c, impl=res) if idx % 1501 == 3 else None,
-                 ble_src=c["src"], ble_items=len(c["items"]), ble_result=res.partition(" ; ")[2].split(" ")[0],
+                 ble_src=c["src"], ble_items=len(c["items"]), ble_container=c.get("container", "list"), ble_result=res.partition(" ; ")[2].split(" ")[0],
                  ble_perm_classes="|".join(sorted({perm_class(c["perms"][str(it[1])]) for it in c["items"]})),
                  ble_has_decor=any(d in c["perms"][str(it[1])].split(",") for it in c["items"] for d in PERM_DECOR[1:]))
     loop.close()
